@@ -272,7 +272,8 @@ Qed.
 Lemma bridge_words_split : forall s, map bytes_of (Model.words s) = Topic.split_dots_acc (bytes_of s) [].
 Proof. intro s. unfold Model.words. rewrite bridge_split_aux. reflexivity. Qed.
 
-(* topicWords: on every string but the empty one, which the code reads as ZERO words and the broker model as one empty word *)
+(* strings.Split against topicWords: on every string but the empty one, which strings.Split reads as one empty word
+   and topicWords as ZERO words *)
 Lemma bridge_words : forall s, s <> EmptyString -> map bytes_of (Model.words s) = Topic.topic_words (bytes_of s).
 Proof.
   intros s H. rewrite bridge_words_split. unfold Topic.topic_words.
@@ -282,8 +283,16 @@ Qed.
 Lemma bridge_words_spec : forall s, s <> EmptyString -> map bytes_of (Model.words s) = Spec.spec_words (bytes_of s).
 Proof. intros s H. rewrite bridge_words by exact H. apply RouteProofs.topic_words_spec. Qed.
 
-Lemma model_words_empty : Model.words EmptyString = [EmptyString] /\ Topic.topic_words (bytes_of EmptyString) = [].
-Proof. split; reflexivity. Qed.
+(* topicWords: the broker model's [topic_words] is the code's, on EVERY string (the empty one has no words) *)
+Lemma bridge_topic_words : forall s, map bytes_of (Model.topic_words s) = Topic.topic_words (bytes_of s).
+Proof. intro s. destruct s as [|a s]; [reflexivity|]. apply (bridge_words (String a s)). discriminate. Qed.
+
+Lemma bridge_topic_words_spec : forall s, map bytes_of (Model.topic_words s) = Spec.spec_words (bytes_of s).
+Proof. intro s. rewrite bridge_topic_words. apply RouteProofs.topic_words_spec. Qed.
+
+Lemma model_words_empty :
+  Model.words EmptyString = [EmptyString] /\ Model.topic_words EmptyString = [] /\ Topic.topic_words (bytes_of EmptyString) = [].
+Proof. repeat split; reflexivity. Qed.
 
 (* ---- the matcher: the fuel of the broker model's backtracking matcher suffices -------- *)
 Notation tmS := (RouteTopicProofs.tm string Model.seqb "*"%string "#"%string).
@@ -327,63 +336,64 @@ Proof.
       rewrite (seqb_bytes x "*"%string), (seqb_bytes x y). reflexivity.
 Qed.
 
-(* the broker model's matcher is matchTopicWords on the Split of both strings - for ALL strings *)
-Lemma bridge_topic_matches_split : forall pat key,
-  Model.topic_matches pat key =
-  Topic.topic_match_bytes (Topic.split_dots_acc (bytes_of pat) []) (Topic.split_dots_acc (bytes_of key) []).
+(* the broker model's fuelled matcher is matchTopicWords (the row algorithm), on EVERY two lists of words *)
+Lemma bridge_topic_match_words : forall p k,
+  Model.topic_match (S (List.length p + List.length k) * 2) p k = Topic.topic_match_bytes (map bytes_of p) (map bytes_of k).
 Proof.
-  intros pat key. unfold Model.topic_matches. cbv zeta.
-  rewrite model_topic_match_fuel by lia.
-  unfold Topic.topic_match_bytes. rewrite RouteTopicProofs.topic_match_tm.
-  rewrite <- !bridge_words_split. symmetry. apply tm_bytes_of.
+  intros p k. rewrite model_topic_match_fuel by lia.
+  unfold Topic.topic_match_bytes. rewrite RouteTopicProofs.topic_match_tm. symmetry. apply tm_bytes_of.
 Qed.
 
-Lemma split_dots_acc_nonempty : forall s cur, Topic.split_dots_acc s cur <> [].
-Proof. induction s as [|c s IH]; intro cur; cbn [Topic.split_dots_acc]; [discriminate|]. destruct (c =? Topic.dot); [discriminate | apply IH]. Qed.
+(* The broker model once split both strings with strings.Split ([Model.words]: the empty string is ONE empty word).
+   The definitions the comparison with the code was first proved for - topicWords as the code has it, the empty
+   string is ZERO words - are kept under their primed names; the broker model's own [topic_words] / [topic_matches]
+   ARE these now (by definition), and the unprimed theorems below follow from the primed ones for ALL inputs. *)
+Definition topic_words' (s : string) : list string :=
+  match s with EmptyString => [] | _ => Model.words s end.
 
-Lemma split_single_empty : forall s cur, Topic.split_dots_acc s cur = [[]] -> s = [] /\ cur = [].
+Definition topic_matches' (pat key : string) : bool :=
+  let p := topic_words' pat in let k := topic_words' key in
+  Model.topic_match (S (List.length p + List.length k) * 2) p k.
+
+Lemma bridge_topic_words' : forall s, map bytes_of (topic_words' s) = Topic.topic_words (bytes_of s).
+Proof. intro s. destruct s as [|a s]; [reflexivity|]. apply bridge_words. discriminate. Qed.
+
+Lemma bridge_topic_words'_spec : forall s, map bytes_of (topic_words' s) = Spec.spec_words (bytes_of s).
+Proof. intro s. rewrite bridge_topic_words'. apply RouteProofs.topic_words_spec. Qed.
+
+Lemma bridge_topic_matches' : forall pat key,
+  topic_matches' pat key = Topic.topic_match_bytes (Topic.topic_words (bytes_of pat)) (Topic.topic_words (bytes_of key)).
 Proof.
-  induction s as [|c s IH]; intro cur; cbn [Topic.split_dots_acc].
-  - intro H. split; [reflexivity|]. injection H as H. destruct cur as [|x cur]; [reflexivity|].
-    apply (f_equal (@List.length _)) in H. rewrite rev_length in H. discriminate.
-  - destruct (c =? Topic.dot).
-    + intro H. injection H as _ H. exfalso. eapply split_dots_acc_nonempty. exact H.
-    + intro H. apply IH in H. destruct H as [_ H]. discriminate.
+  intros pat key. unfold topic_matches'. cbv zeta. rewrite bridge_topic_match_words, !bridge_topic_words'. reflexivity.
 Qed.
 
-(* ... and it is MatchTopic's test exactly when the routing key is not empty (or the pattern is) *)
-Lemma bridge_topic_matches : forall pat key, key <> EmptyString \/ pat = EmptyString ->
-  Model.topic_matches pat key = Topic.topic_match_bytes (Topic.topic_words (bytes_of pat)) (Topic.topic_words (bytes_of key)).
+Lemma model_topic_spec' : forall pat key,
+  topic_matches' pat key = true <-> Spec.spec_topic (bytes_of pat) (bytes_of key).
 Proof.
-  intros pat key H. rewrite bridge_topic_matches_split.
-  destruct pat as [|a pat].
-  - (* the empty pattern: one empty word against zero words - both match the empty key only *)
-    cbn [bytes_of Topic.topic_words Topic.split_dots_acc rev].
-    destruct key as [|b key]; [reflexivity|].
-    unfold Topic.topic_words. cbn [bytes_of].
-    unfold Topic.topic_match_bytes. rewrite !RouteTopicProofs.topic_match_tm.
-    remember (Topic.split_dots_acc (N_of_ascii b :: bytes_of key) []) as ws eqn:Ews.
-    destruct ws as [|w ws]; [exfalso; symmetry in Ews; eapply split_dots_acc_nonempty; exact Ews|].
-    cbn [RouteTopicProofs.tm Value.bytes_eqb]. cbn [orb].
-    destruct w as [|x w]; [|reflexivity]. cbn [Value.bytes_eqb andb].
-    destruct ws as [|w' ws]; [|reflexivity].
-    symmetry in Ews. apply split_single_empty in Ews. destruct Ews as [Ews _]. discriminate.
-  - destruct H as [H|H]; [|discriminate].
-    destruct key as [|b key]; [contradiction|]. reflexivity.
-Qed.
-
-(* hence, by the Route theorems: the broker model's topic test is the AMQP word rule *)
-Lemma model_topic_spec : forall pat key, key <> EmptyString \/ pat = EmptyString ->
-  Model.topic_matches pat key = true <-> Spec.spec_topic (bytes_of pat) (bytes_of key).
-Proof.
-  intros pat key H. rewrite (bridge_topic_matches pat key H). unfold Spec.spec_topic.
+  intros pat key. rewrite bridge_topic_matches'. unfold Spec.spec_topic.
   rewrite RouteProofs.topic_match_bytes_correct, !RouteProofs.topic_words_spec. reflexivity.
 Qed.
 
-(* the empty routing key: the broker model matches against ONE empty word *)
+(* the primed definitions are the broker model's, for all inputs *)
+Lemma topic_words'_eq : forall s, topic_words' s = Model.topic_words s.
+Proof. reflexivity. Qed.
+Lemma topic_matches'_eq : forall pat key, topic_matches' pat key = Model.topic_matches pat key.
+Proof. reflexivity. Qed.
+
+(* ... hence the broker model's topic test is MatchTopic's test, for ALL patterns and routing keys *)
+Lemma bridge_topic_matches : forall pat key,
+  Model.topic_matches pat key = Topic.topic_match_bytes (Topic.topic_words (bytes_of pat)) (Topic.topic_words (bytes_of key)).
+Proof. intros pat key. rewrite <- topic_matches'_eq. apply bridge_topic_matches'. Qed.
+
+(* and, by the Route theorems, the AMQP word rule *)
+Lemma model_topic_spec : forall pat key,
+  Model.topic_matches pat key = true <-> Spec.spec_topic (bytes_of pat) (bytes_of key).
+Proof. intros pat key. rewrite <- topic_matches'_eq. apply model_topic_spec'. Qed.
+
+(* the empty routing key: matched against NO word, as in the code *)
 Lemma model_topic_empty_key : forall pat,
-  Model.topic_matches pat EmptyString = Topic.topic_match_bytes (Topic.split_dots_acc (bytes_of pat) []) [[]].
-Proof. intro pat. rewrite bridge_topic_matches_split. reflexivity. Qed.
+  Model.topic_matches pat EmptyString = Topic.topic_match_bytes (Topic.topic_words (bytes_of pat)) [].
+Proof. intro pat. rewrite bridge_topic_matches. reflexivity. Qed.
 
 (* ---- the exchange level ------------------------------------------------------------------ *)
 Definition type_id (c : Cfg.route_cfg) (t : Model.extype) : N :=
@@ -461,15 +471,15 @@ Proof. induction l as [|a l IH]; cbn; [reflexivity | rewrite IH; reflexivity]. Q
 Lemma Forall2_weaken : forall {A B} (P Q : A -> B -> Prop) l l', (forall a b, P a b -> Q a b) -> Forall2 P l l' -> Forall2 Q l l'.
 Proof. intros A B P Q l l' H HF. induction HF; constructor; auto. Qed.
 
-(* direct, fanout, topic: the broker model's matched_queues (F04 repaired) is GetMatchedQueues, as a list *)
+(* direct, fanout, topic: the broker model's matched_queues (F04 repaired) is GetMatchedQueues, as a list, for EVERY
+   routing key *)
 Theorem bridge_matched_queues : forall c, Cfg.cfg_sane c = true ->
   forall exn e rex key m,
   exchange_rep c exn e rex -> Exchange.m_exchange m = exn -> Exchange.m_key m = bytes_of key ->
   Model.e_type e <> Model.ExHeaders ->
-  (Model.e_type e = Model.ExTopic -> key <> EmptyString) ->
   Exchange.matched_queues c rex m = Some (map bytes_of (Model.matched_queues false e key)).
 Proof.
-  intros c Hc exn e rex key m (_ & Hty & Hbs) Hex Hkey Hnh Hk.
+  intros c Hc exn e rex key m (_ & Hty & Hbs) Hex Hkey Hnh.
   pose proof (RouteProofs.cfg_sane_sane c Hc) as S.
   destruct (RouteProofs.n_distinct4_spec _ _ _ _ (RouteProofs.s_ids c S)) as [D1 [D2 [D3 [D4 [D5 D6]]]]].
   unfold Exchange.matched_queues, Model.matched_queues. rewrite Hty, Hex, Hkey.
@@ -490,7 +500,7 @@ Proof.
                (Model.e_bindings e) (Exchange.ex_bindings rex)) with (seen := []); [reflexivity| |reflexivity].
     eapply Forall2_weaken; [|exact Hbs]. intros b rb (Hq & He & Hkk & Ht). split; [exact Hq|].
     unfold Exchange.match_topic, Exchange.binding_pattern. rewrite He, Hkk, Ht, RouteProofs.bytes_eqb_refl. cbn [is_topic andb].
-    symmetry. apply bridge_topic_matches. left. apply Hk. reflexivity.
+    symmetry. apply bridge_topic_matches.
 Qed.
 
 (* headers: the broker model's messages carry no headers table and its matched_queues answers [] - so does
@@ -553,21 +563,20 @@ Qed.
 
 (* Props/C08.v's main theorem, read on the broker model: a queue is in the broker model's matched list iff one of
    its bindings on the exchange matches by the AMQP rule - for direct, fanout and topic exchanges whose bindings
-   NewBinding accepts, every routing key (topic: every non-empty one) *)
+   NewBinding accepts, every routing key *)
 Theorem model_route_eq_spec : forall c, Cfg.cfg_sane c = true ->
   forall exn e rex key m,
   exchange_rep c exn e rex -> Exchange.m_exchange m = exn -> Exchange.m_key m = bytes_of key ->
   Model.e_type e <> Model.ExHeaders ->
-  (Model.e_type e = Model.ExTopic -> key <> EmptyString) ->
   Forall (Spec.binding_wf c (kind_of_type (Model.e_type e))) (Exchange.ex_bindings rex) ->
   NoDup (Model.matched_queues false e key) /\
   forall q, In q (Model.matched_queues false e key) <->
             Spec.route_spec true (kind_of_type (Model.e_type e)) (Exchange.ex_bindings rex) m (bytes_of q).
 Proof.
-  intros c Hc exn e rex key m Hrep Hex Hkey Hnh Hk Hwf.
+  intros c Hc exn e rex key m Hrep Hex Hkey Hnh Hwf.
   set (m' := {| Exchange.m_exchange := exn; Exchange.m_key := bytes_of key; Exchange.m_headers := Some [];
                 Exchange.m_mandatory := Exchange.m_mandatory m |}).
-  pose proof (bridge_matched_queues c Hc exn e rex key m' Hrep eq_refl eq_refl Hnh Hk) as Hb.
+  pose proof (bridge_matched_queues c Hc exn e rex key m' Hrep eq_refl eq_refl Hnh) as Hb.
   destruct Hrep as (Hn & Hty & Hbs).
   destruct (RouteProofs.route_eq_spec c Hc rex (kind_of_type (Model.e_type e)) m') as (l & Hl & Hnd & Hq).
   { rewrite Hty. apply kind_of_type_id. exact Hc. }
@@ -587,68 +596,28 @@ Proof.
     intro Hi. apply in_map_iff in Hi. destruct Hi as (x & Ex & Hx). apply bytes_of_inj in Ex. subst. exact Hx.
 Qed.
 
-(* ---- the two corners where the broker model is imprecise, in the form that survives its repair -------- *)
-(* (i) topicWords as the code has it: the empty string is ZERO words.  With [topic_words'] in place of
-   [Model.words] the broker model's matcher is MatchTopic's test for ALL patterns and keys. *)
-Definition topic_words' (s : string) : list string :=
-  match s with EmptyString => [] | _ => Model.words s end.
-
-Definition topic_matches' (pat key : string) : bool :=
-  let p := topic_words' pat in let k := topic_words' key in
-  Model.topic_match (S (List.length p + List.length k) * 2) p k.
-
-Lemma bridge_topic_words' : forall s, map bytes_of (topic_words' s) = Topic.topic_words (bytes_of s).
-Proof. intro s. destruct s as [|a s]; [reflexivity|]. apply bridge_words. discriminate. Qed.
-
-Lemma bridge_topic_words'_spec : forall s, map bytes_of (topic_words' s) = Spec.spec_words (bytes_of s).
-Proof. intro s. rewrite bridge_topic_words'. apply RouteProofs.topic_words_spec. Qed.
-
-Lemma bridge_topic_matches' : forall pat key,
-  topic_matches' pat key = Topic.topic_match_bytes (Topic.topic_words (bytes_of pat)) (Topic.topic_words (bytes_of key)).
-Proof.
-  intros pat key. unfold topic_matches'. cbv zeta. rewrite model_topic_match_fuel by lia.
-  unfold Topic.topic_match_bytes. rewrite RouteTopicProofs.topic_match_tm, <- !bridge_topic_words'. symmetry. apply tm_bytes_of.
-Qed.
-
-Lemma model_topic_spec' : forall pat key,
-  topic_matches' pat key = true <-> Spec.spec_topic (bytes_of pat) (bytes_of key).
-Proof.
-  intros pat key. rewrite bridge_topic_matches'. unfold Spec.spec_topic.
-  rewrite RouteProofs.topic_match_bytes_correct, !RouteProofs.topic_words_spec. reflexivity.
-Qed.
-
-(* the repaired test agrees with the present one wherever the present one is right *)
-Lemma topic_matches'_eq : forall pat key, key <> EmptyString \/ pat = EmptyString ->
-  topic_matches' pat key = Model.topic_matches pat key.
-Proof. intros pat key H. rewrite bridge_topic_matches', bridge_topic_matches by exact H. reflexivity. Qed.
-
-(* (ii) parseTopicPattern on the broker model's strings: a word longer than one character that contains a wildcard *)
-Fixpoint str_has_wild (s : string) : bool :=
-  match s with
-  | EmptyString => false
-  | String a t => Ascii.eqb a "*"%char || Ascii.eqb a "#"%char || str_has_wild t
-  end.
-Definition bad_word (w : string) : bool := Nat.ltb 1 (String.length w) && str_has_wild w.
-Definition bad_pattern (key : string) : bool := existsb bad_word (topic_words' key).
-Definition wf_pattern (key : string) : bool := negb (bad_pattern key).
+(* ---- parseTopicPattern ------------------------------------------------------------------ *)
+(* the broker model's [bad_pattern] (a word longer than one character that contains a wildcard) is the negation of the
+   code's parseTopicPattern on the same string *)
+Definition wf_pattern (key : string) : bool := negb (Model.bad_pattern key).
 
 Lemma bytes_of_length : forall s, List.length (bytes_of s) = String.length s.
 Proof. induction s as [|a s IH]; cbn [bytes_of List.length String.length]; [reflexivity | rewrite IH; reflexivity]. Qed.
 
 Lemma bytes_of_has_wild : forall s,
-  existsb (fun c => N.eqb c Topic.star_b || N.eqb c Topic.hash_b) (bytes_of s) = str_has_wild s.
+  existsb (fun c => N.eqb c Topic.star_b || N.eqb c Topic.hash_b) (bytes_of s) = Model.str_has_wild s.
 Proof.
-  induction s as [|a s IH]; cbn [bytes_of existsb str_has_wild]; [reflexivity|].
+  induction s as [|a s IH]; cbn [bytes_of existsb Model.str_has_wild]; [reflexivity|].
   rewrite IH, !ascii_eqb_N. reflexivity.
 Qed.
 
-Lemma word_ok_bytes_of : forall w, Topic.word_ok (bytes_of w) = negb (bad_word w).
-Proof. intro w. unfold Topic.word_ok, bad_word. rewrite bytes_of_length, bytes_of_has_wild. reflexivity. Qed.
+Lemma word_ok_bytes_of : forall w, Topic.word_ok (bytes_of w) = negb (Model.bad_word w).
+Proof. intro w. unfold Topic.word_ok, Model.bad_word. rewrite bytes_of_length, bytes_of_has_wild. reflexivity. Qed.
 
 Lemma pattern_ok_bytes_of : forall key, Topic.pattern_ok (bytes_of key) = wf_pattern key.
 Proof.
-  intro key. unfold Topic.pattern_ok, wf_pattern, bad_pattern. rewrite <- bridge_topic_words'.
-  induction (topic_words' key) as [|w l IH]; cbn [map forallb existsb]; [reflexivity|].
+  intro key. unfold Topic.pattern_ok, wf_pattern, Model.bad_pattern. rewrite <- bridge_topic_words.
+  induction (Model.topic_words key) as [|w l IH]; cbn [map forallb existsb]; [reflexivity|].
   rewrite IH, word_ok_bytes_of, negb_orb. reflexivity.
 Qed.
 
@@ -656,11 +625,11 @@ Qed.
    topic exchange with a malformed pattern *)
 Lemma new_binding_none_iff : forall c q ex key args topic, RouteProofs.sane c ->
   (args = None \/ exists t, args = Some t /\ Value.lookup (Cfg.c_x_match c) t = None) ->
-  (Exchange.new_binding c q ex (bytes_of key) args topic = None <-> topic = true /\ bad_pattern key = true).
+  (Exchange.new_binding c q ex (bytes_of key) args topic = None <-> topic = true /\ Model.bad_pattern key = true).
 Proof.
   intros c q ex key args topic S Ha. unfold Exchange.new_binding. rewrite pattern_ok_bytes_of. unfold wf_pattern. rewrite negb_involutive.
   destruct topic; cbn [andb].
-  - destruct (bad_pattern key) eqn:Eb.
+  - destruct (Model.bad_pattern key) eqn:Eb.
     + split; [intros _; split; reflexivity | reflexivity].
     + split; [|intros [_ H]; discriminate].
       destruct Ha as [->|[t [-> Hl]]]; [discriminate|]. rewrite Hl. discriminate.
@@ -669,14 +638,66 @@ Proof.
 Qed.
 
 Lemma new_binding_topic_none_iff : forall c q ex key, RouteProofs.sane c ->
-  (Exchange.new_binding c q ex (bytes_of key) (Some []) true = None <-> bad_pattern key = true).
+  (Exchange.new_binding c q ex (bytes_of key) (Some []) true = None <-> Model.bad_pattern key = true).
 Proof.
   intros c q ex key S. rewrite (new_binding_none_iff c q ex key (Some []) true S).
   - split; [intros [_ H]; exact H | intro H; split; [reflexivity | exact H]].
   - right. exists []. split; reflexivity.
 Qed.
 
-(* GetMatchedQueues with the repaired topic test: the list equality holds for EVERY routing key *)
+(* queue.bind without arguments, past the checks that come first (the exchange exists and is not the default one, the
+   queue exists and is not locked): the broker model refuses it with PreconditionFailed (406, class 50 method 20)
+   exactly when NewBinding fails - on a topic exchange, for a malformed pattern - and otherwise raises no error *)
+Lemma extype_eqb_topic : forall t, Model.extype_eqb t Model.ExTopic = is_topic t.
+Proof. destruct t; reflexivity. Qed.
+
+Lemma model_bind_result : forall cfg fx s cn h ch q exn key nowait e qu,
+  Model.get_chan s cn h = Some ch ->
+  Model.alookup Model.seqb exn (Model.exchanges s) = Some e -> exn <> EmptyString ->
+  Model.queue_found s q = Some qu -> Model.locked qu cn = false ->
+  snd (Model.handle_method cfg fx s cn h (Model.MQBind q exn key [] nowait)) =
+  if is_topic (Model.e_type e) && Model.bad_pattern key then Some (Model.ChanErr Model.PreconditionFailed 50 20) else None.
+Proof.
+  intros cfg fx s cn h ch q exn key nowait e qu Hch He Hne Hq Hl.
+  unfold Model.handle_method. rewrite Hch, He.
+  assert (E : Model.seqb exn EmptyString = false) by (apply String.eqb_neq; exact Hne).
+  rewrite E, Hq, Hl. cbn [Model.bad_xmatch Model.alookup]. rewrite extype_eqb_topic.
+  destruct (is_topic (Model.e_type e) && Model.bad_pattern key); reflexivity.
+Qed.
+
+Theorem model_bind_refused_iff : forall c, RouteProofs.sane c ->
+  forall cfg fx s cn h ch q exn key nowait e qu,
+  Model.get_chan s cn h = Some ch ->
+  Model.alookup Model.seqb exn (Model.exchanges s) = Some e -> exn <> EmptyString ->
+  Model.queue_found s q = Some qu -> Model.locked qu cn = false ->
+  (snd (Model.handle_method cfg fx s cn h (Model.MQBind q exn key [] nowait)) = Some (Model.ChanErr Model.PreconditionFailed 50 20)
+   <-> Exchange.new_binding c (bytes_of q) (bytes_of exn) (bytes_of key) (Some []) (is_topic (Model.e_type e)) = None) /\
+  (snd (Model.handle_method cfg fx s cn h (Model.MQBind q exn key [] nowait)) = None
+   <-> Exchange.new_binding c (bytes_of q) (bytes_of exn) (bytes_of key) (Some []) (is_topic (Model.e_type e)) <> None).
+Proof.
+  intros c S cfg fx s cn h ch q exn key nowait e qu Hch He Hne Hq Hl.
+  rewrite (model_bind_result cfg fx s cn h ch q exn key nowait e qu Hch He Hne Hq Hl).
+  rewrite (new_binding_none_iff c (bytes_of q) (bytes_of exn) key (Some []) (is_topic (Model.e_type e)) S)
+    by (right; exists []; split; reflexivity).
+  destruct (is_topic (Model.e_type e)); destruct (Model.bad_pattern key); cbn [andb]; split; split; intro H;
+    try reflexivity; try discriminate; try (destruct H; discriminate); try (split; reflexivity);
+    try (intros [? ?]; discriminate); try (exfalso; apply H; split; reflexivity).
+Qed.
+
+(* the same for queue.unbind (406, class 50 method 50): parseTopicPattern runs before the binding is looked up *)
+Lemma model_unbind_result : forall cfg fx s cn h ch q exn key e qu,
+  Model.get_chan s cn h = Some ch ->
+  Model.alookup Model.seqb exn (Model.exchanges s) = Some e ->
+  Model.queue_found s q = Some qu -> Model.locked qu cn = false ->
+  snd (Model.handle_method cfg fx s cn h (Model.MQUnbind q exn key [])) =
+  if is_topic (Model.e_type e) && Model.bad_pattern key then Some (Model.ChanErr Model.PreconditionFailed 50 50) else None.
+Proof.
+  intros cfg fx s cn h ch q exn key e qu Hch He Hq Hl.
+  unfold Model.handle_method. rewrite Hch, He, Hq, Hl. cbn [Model.bad_xmatch Model.alookup]. rewrite extype_eqb_topic.
+  destruct (is_topic (Model.e_type e) && Model.bad_pattern key); reflexivity.
+Qed.
+
+(* GetMatchedQueues with the primed topic test - which is the broker model's own now *)
 Definition matched_queues' (e : Model.exchange) (key : string) : list string :=
   match Model.e_type e with
   | Model.ExTopic =>
@@ -687,12 +708,8 @@ Definition matched_queues' (e : Model.exchange) (key : string) : list string :=
 Lemma filter_ext_in' : forall {A} (f g : A -> bool) l, (forall x, f x = g x) -> filter f l = filter g l.
 Proof. intros A f g l H. induction l as [|a l IH]; cbn; [reflexivity|]. rewrite H, IH. reflexivity. Qed.
 
-Lemma matched_queues'_eq : forall e key, key <> EmptyString ->
-  matched_queues' e key = Model.matched_queues false e key.
-Proof.
-  intros e key H. unfold matched_queues', Model.matched_queues. destruct (Model.e_type e); try reflexivity.
-  f_equal. f_equal. apply filter_ext_in'. intro b. apply topic_matches'_eq. left. exact H.
-Qed.
+Lemma matched_queues'_eq : forall e key, matched_queues' e key = Model.matched_queues false e key.
+Proof. intros e key. unfold matched_queues', Model.matched_queues. destruct (Model.e_type e); reflexivity. Qed.
 
 Theorem bridge_matched_queues' : forall c, Cfg.cfg_sane c = true ->
   forall exn e rex key m,
@@ -700,22 +717,8 @@ Theorem bridge_matched_queues' : forall c, Cfg.cfg_sane c = true ->
   Model.e_type e <> Model.ExHeaders ->
   Exchange.matched_queues c rex m = Some (map bytes_of (matched_queues' e key)).
 Proof.
-  intros c Hc exn e rex key m Hrep Hex Hkey Hnh.
-  destruct (Model.e_type e) eqn:Et.
-  - unfold matched_queues'. rewrite Et. apply (bridge_matched_queues c Hc exn e rex key m Hrep Hex Hkey); rewrite Et; discriminate.
-  - unfold matched_queues'. rewrite Et. apply (bridge_matched_queues c Hc exn e rex key m Hrep Hex Hkey); rewrite Et; discriminate.
-  - destruct Hrep as (_ & Hty & Hbs).
-    pose proof (RouteProofs.cfg_sane_sane c Hc) as S.
-    destruct (RouteProofs.n_distinct4_spec _ _ _ _ (RouteProofs.s_ids c S)) as [D1 [D2 [D3 [D4 [D5 D6]]]]].
-    unfold Exchange.matched_queues, matched_queues'. rewrite Hty, Hex, Hkey, Et in *. cbn [type_id].
-    rewrite (proj2 (N.eqb_neq _ _)) by congruence. rewrite (proj2 (N.eqb_neq _ _)) by congruence.
-    rewrite N.eqb_refl, (RouteProofs.s_et c S).
-    rewrite (bridge_mq_loop (fun b => topic_matches' (Model.b_key b) key) (fun rb => Exchange.match_topic rb exn (bytes_of key))
-               (Model.e_bindings e) (Exchange.ex_bindings rex)) with (seen := []); [reflexivity| |reflexivity].
-    eapply Forall2_weaken; [|exact Hbs]. intros b rb (Hq & He & Hkk & Ht). split; [exact Hq|].
-    unfold Exchange.match_topic, Exchange.binding_pattern. rewrite He, Hkk, Ht, RouteProofs.bytes_eqb_refl. cbn [is_topic andb].
-    symmetry. apply bridge_topic_matches'.
-  - contradiction.
+  intros c Hc exn e rex key m Hrep Hex Hkey Hnh. rewrite matched_queues'_eq.
+  exact (bridge_matched_queues c Hc exn e rex key m Hrep Hex Hkey Hnh).
 Qed.
 
 (* ====================================================================================== *)
